@@ -41,7 +41,7 @@ def salt_words(name, salt):
     return [limbs(w, nl) for w in ws]
 
 def obs_out(r):
-    return B(r) if isinstance(r, (bytes, bytearray)) else []
+    return B(r) if isinstance(r, bytes) else []
 
 class Rec:
     def __init__(self, name):
